@@ -20,7 +20,11 @@
     [fix4 = false] is diff.diffMap as it is in the tree, [fix4 = true] the repaired one of patches/C03-fix-4.patch;
     [vwf_gen strict]: object keys unique, a "__key" is a comparable scalar or (unless [strict]) nil.  The
     hypothesis [fix4 || strict = true] reads: the current code on the strict domain, or the repaired code
-    with explicit nil keys allowed.  [roundtrip_nil_key_refuted]: the current code off the strict domain. *)
+    with explicit nil keys allowed.  [roundtrip_nil_key_refuted]: the current code off the strict domain.
+    [guide]: which index list a list diff uses ([vchoose]): [None] = diff.computeReorderIndices; the round trips,
+    the serialisation theorems and the well-formedness of deltas hold for EVERY guide (any index list of
+    the right length with entries in range will do); what is said about the choice itself (nil delta iff equal,
+    unchanged fields absent, matched objects not resent) is for [guide = None]. *)
 From Coq Require Import List ZArith String Bool.
 From Thunder Require Import Lib.Json Lib.JsonNorm DiffMerge.Model DiffMerge.ProofsCompress DiffMerge.ProofsMergeGo
      DiffMerge.ProofsMain DiffMerge.ProofsSelf DiffMerge.ProofsJS.
@@ -160,16 +164,16 @@ Print Assumptions roundtrip_nil_key_refuted.
 
 (** "A nil diff indicates that the old and new objects are equal" - as an equivalence, keys included. *)
 Theorem diff_nil_iff_equal :
-  forall (A : Type) (O : atom_ops A), atom_laws O ->
+  forall (A : Type) (O : atom_ops A), atom_laws O -> @guide A O = None ->
   forall old new : val A, vwf_strict old = true -> vwf_strict new = true -> (VDiff old new = None <-> vjeq old new).
-Proof. intros A O L. exact (vdiff_none_iff L). Qed.
+Proof. intros A O L G. exact (vdiff_none_iff L G). Qed.
 Print Assumptions diff_nil_iff_equal.
 
 (** ... one direction of which holds with explicit nil keys too (self-diff, for equal values). *)
 Theorem diff_equal_is_nil :
-  forall (A : Type) (O : atom_ops A), atom_laws O -> forall strict : bool,
+  forall (A : Type) (O : atom_ops A), atom_laws O -> @guide A O = None -> forall strict : bool,
   forall old new : val A, vwf_gen strict old = true -> vwf_gen strict new = true -> vjeq old new -> VDiff old new = None.
-Proof. intros A O L strict old new Ho Hn Hj. exact (vjeq_diff_none L strict new old Ho Hn Hj). Qed.
+Proof. intros A O L G strict old new Ho Hn Hj. exact (vjeq_diff_none L G strict new old Ho Hn Hj). Qed.
 Print Assumptions diff_equal_is_nil.
 
 (** StripKey is idempotent, leaves no "__key" anywhere, and fixes exactly the key-free values. *)
@@ -195,11 +199,11 @@ Print Assumptions object_delta_exact.
 
 (** ... so a field is missing from the delta exactly when it did not change (absent from both, or equal) ... *)
 Theorem object_field_absent_iff :
-  forall (A : Type) (O : atom_ops A), atom_laws O ->
+  forall (A : Type) (O : atom_ops A), atom_laws O -> @guide A O = None ->
   forall (o n : list (string * val A)) (k : string),
   vwf_strict (VObj o) = true -> vwf_strict (VObj n) = true -> veqb (vget_key o) (vget_key n) = true ->
   (lookup k (entries (VDiff (VObj o) (VObj n))) = None <-> orel vjeq (lookup k o) (lookup k n)).
-Proof. intros A O L. exact (vobject_field_absent_iff L). Qed.
+Proof. intros A O L G. exact (vobject_field_absent_iff L G). Qed.
 Print Assumptions object_field_absent_iff.
 
 (** ... and objects with different keys are resent whole. *)
@@ -214,7 +218,7 @@ Print Assumptions object_key_change.
     matched with (nil if none). *)
 Theorem array_delta_exact :
   forall (A : Type) (O : atom_ops A) (o n : list (val A)),
-  let idx := vcompute_reorder_indices o n in
+  let idx := vchoose o n in
   let d := entries (VDiff (VArr o) (VArr n)) in
   (VDiff (VArr o) (VArr n) = None \/ VDiff (VArr o) (VArr n) = Some (VObj d))
   /\ lookup dollar d = (if Nat.eqb (List.length o) (List.length n) && order_is_identity 0 idx then None
